@@ -20,11 +20,13 @@ type junkCell struct {
 }
 
 var junkDocs = map[string]string{
-	"configmap":   "apiVersion: v1\nkind: ConfigMap\nmetadata: {name: \"cm\", namespace: \"ns1\"}\ndata: {\"k\": \"v\"}\n",
-	"secret":      "apiVersion: v1\nkind: Secret\nmetadata: {name: \"s\", namespace: \"ns1\"}\ntype: Opaque\ndata: {\"p\": \"cGFzcw==\"}\n",
-	"crdinstance": "apiVersion: example.com/v1\nkind: Widget\nmetadata: {name: \"w\", namespace: \"ns1\"}\nspec: {podSelector: {}, size: 3}\n",
-	"openshift":   "apiVersion: apps.openshift.io/v1\nkind: DeploymentConfig\nmetadata: {name: \"dc\", namespace: \"ns1\"}\nspec: {replicas: 1, selector: {app: \"dc\"}, template: {metadata: {labels: {app: \"dc\"}}, spec: {containers: [{name: c, image: i}]}}}\n",
-	"list":        "apiVersion: v1\nkind: ServiceAccount\nmetadata: {name: \"sa\", namespace: \"ns2\"}\n",
+	"configmap":     "apiVersion: v1\nkind: ConfigMap\nmetadata: {name: \"cm\", namespace: \"ns1\"}\ndata: {\"k\": \"v\"}\n",
+	"secret":        "apiVersion: v1\nkind: Secret\nmetadata: {name: \"s\", namespace: \"ns1\"}\ntype: Opaque\ndata: {\"p\": \"cGFzcw==\"}\n",
+	"crdinstance":   "apiVersion: example.com/v1\nkind: Widget\nmetadata: {name: \"w\", namespace: \"ns1\"}\nspec: {podSelector: {}, size: 3}\n",
+	"openshift":     "apiVersion: apps.openshift.io/v1\nkind: DeploymentConfig\nmetadata: {name: \"dc\", namespace: \"ns1\"}\nspec: {replicas: 1, selector: {app: \"dc\"}, template: {metadata: {labels: {app: \"dc\"}}, spec: {containers: [{name: c, image: i}]}}}\n",
+	"list":          "apiVersion: v1\nkind: ServiceAccount\nmetadata: {name: \"sa\", namespace: \"ns2\"}\n",
+	"kustomization": "apiVersion: kustomize.config.k8s.io/v1beta1\nkind: Kustomization\nresources: [\"all.yaml\"]\ncommonLabels: {\"team\": \"x\"}\n",
+	"kubeconfig":    "apiVersion: v1\nkind: Config\nclusters: []\ncontexts: []\ncurrent-context: \"\"\nusers: []\n",
 	// resources of analysed kinds that fail schema conversion
 	"badnetpol": "apiVersion: networking.k8s.io/v1\nkind: NetworkPolicy\nmetadata: {name: \"broken-np\", namespace: \"ns1\"}\nspec:\n  podSelector: \"everything\"\n  ingress: [{}]\n",
 	"baddeploy": "apiVersion: apps/v1\nkind: Deployment\nmetadata: {name: \"broken-dep\", namespace: \"ns1\"}\nspec:\n  replicas: \"three\"\n  selector: {matchLabels: {app: \"x\"}}\n  template: {metadata: {labels: {app: \"x\"}}, spec: {containers: [{name: c, image: i}]}}\n",
@@ -44,7 +46,8 @@ func c13Cells() []junkCell {
 	cells := []junkCell{}
 	// "lookalike-*": instances of custom resources whose KIND is spelled like a kind the analysis uses (another API group), named like a
 	// real resource of the input - the analysis does not use them
-	for _, k := range []string{"configmap", "secret", "crdinstance", "openshift", "list", "lookalike-service", "lookalike-route"} {
+	// "kustomization", "kubeconfig": valid documents of kinds that legitimately carry no metadata.name
+	for _, k := range []string{"configmap", "secret", "crdinstance", "openshift", "list", "lookalike-service", "lookalike-route", "kustomization", "kubeconfig"} {
 		for _, p := range []string{"file", "first", "middle", "last"} {
 			cells = append(cells, junkCell{Kind: k, Placement: p})
 		}
@@ -71,7 +74,7 @@ func init() {
 	run.Register(&run.Check{
 		ID:    "C13",
 		Level: "fault_enumeration",
-		Rule: "fault enumeration: every (junk kind, placement) cell - 7 irrelevant kinds (two of them custom resources whose kind is spelled like a used one and which are named like a real Service / Route of the input) and 5 schema-conversion failures x {own file, first/middle/last document of a valid file}, 6 unreadable/malformed file kinds (two syntax errors, HTML, binary, dangling symlink, symlink loop), 5 harmless files (empty .yaml, .txt, .md, .png, non-manifest .json), a fatal duplicate-NetworkPolicy conflict alone and next to a severe document recorded before / after it, a fatal invalid CIDR next to a severe document - is applied to sampled valid worlds (case index mod number of cells picks the cell); " +
+		Rule: "fault enumeration: every (junk kind, placement) cell - 9 irrelevant kinds (a Kustomization and a kubeconfig, which carry no metadata.name; two custom resources whose kind is spelled like a used one and which are named like a real Service / Route of the input) and 5 schema-conversion failures x {own file, first/middle/last document of a valid file}, 6 unreadable/malformed file kinds (two syntax errors, HTML, binary, dangling symlink, symlink loop), 5 harmless files (empty .yaml, .txt, .md, .png, non-manifest .json), a fatal duplicate-NetworkPolicy conflict alone and next to a severe document recorded before / after it, a fatal invalid CIDR next to a severe document - is applied to sampled valid worlds (case index mod number of cells picks the cell); " +
 			"oracles over paired real runs: list(valid+junk) = list(valid) point-wise, severe(with) - severe(without) >= injected bad items for list AND for diff with the junk in dir1, in dir2 and different junk on both sides, stop-on-error + severe => empty result or error on ConnlistFromDirPath, ConnlistFromResourceInfos and diff, fatal => error and no result for list and diff, diff(valid+junk, valid) has no added/removed/changed entry; " +
 			"non-trivial = the valid twin's report is non-empty and the cell injects a bad or fatal item; distinct = world hash + cell",
 		Assumptions:       []string{"a syntax error ends the decoding of its own file, so broken content is injected as whole files only", "an empty file and files without manifest extension are neither errors nor inputs"},
@@ -295,8 +298,9 @@ func runC13(c *run.Ctx) {
 			r.Violate("c13.skew", "c13.skew:"+cell.Kind+":peers", fmt.Sprintf("%d peers", len(base.Peers)), fmt.Sprintf("%d peers", len(with.Peers)), tag)
 		}
 	}
-	// (1b) the same with stop-on-first-error when nothing severe is present at all: irrelevant documents are not errors to stop on
-	if !cell.Bad && !with.HasErr && with.Severe() == 0 && base.Severe() == 0 {
+	// (1b) the same with stop-on-first-error when the input without them has nothing severe: irrelevant documents are not errors to stop
+	// on (one that is reported as a severe error would empty the result here)
+	if !cell.Bad && base.Severe() == 0 {
 		sb := observe.List(valid, observe.ListOpts{StopOnError: true})
 		sw := observe.List(junk, observe.ListOpts{StopOnError: true})
 		if sb.Panic == "" && sw.Panic == "" {
